@@ -29,7 +29,7 @@ macro_rules! comp_plain {
 }
 
 comp_plain!(Ta, Tb);
-comp_plain!(Qa, Qb, Qc, Qd, Qe, Qf, Qg, Qh, Qi, Qj, Qk, Ql, Qm, Qn, Qo, Qp);
+comp_plain!(Qa, Qc, Qe, Qf, Qg, Qi, Qj, Qk, Ql, Qm, Qn, Qo, Qp);
 #[cfg(feature = "32_components")]
 comp_plain!(Ra, Rb, Rc, Rd, Re, Rf, Rg, Rh, Ri, Rj, Rk, Rl, Rm, Rn, Ro, Rp);
 
@@ -188,6 +188,44 @@ impl Clone for Tw {
         Self { id, p: self.p, wide: wide_of(id, self.p), blob: blob_of(id, self.p), pad: self.pad }
     }
 }
+
+/// Size / alignment classes beyond 16-byte plain structs: 17 bytes with alignment 1 (packed),
+/// 19 bytes with alignment 1, and a 4 KiB + 24 bytes page-crossing blob. All carry a check byte
+/// pattern derived from (id, p), so a copy with a wrong stride or length shows up as corruption.
+macro_rules! comp_odd {
+    ($name:ident, $tail:expr) => {
+        #[repr(C, packed)]
+        pub struct $name { pub id: u64, pub p: i64, pub tail: [u8; $tail] }
+        impl $name {
+            fn tail_of(id: u64, p: i64) -> [u8; $tail] {
+                let mut t = [0u8; $tail];
+                for (i, x) in t.iter_mut().enumerate() {
+                    *x = (id.wrapping_mul(31).wrapping_add(p as u64).wrapping_add(i as u64 * 7) & 0xff) as u8 ^ 0xC3;
+                }
+                t
+            }
+        }
+        impl Comp for $name {
+            const NAME: &'static str = stringify!($name);
+            fn new(p: i64) -> Self { let id = reg::born(); Self { id, p, tail: Self::tail_of(id, p) } }
+            fn val(&self) -> Val { let (id, p) = (self.id, self.p); reg::check_live(id); (id, p) }
+            fn set(&mut self, p: i64) { let id = self.id; self.p = p; self.tail = Self::tail_of(id, p); }
+            fn check(&self) {
+                let (id, p, tail) = (self.id, self.p, self.tail);
+                if tail != Self::tail_of(id, p) {
+                    reg::with(|r| r.anomalies.push(format!("corrupt_{}:{}", stringify!($name), id)));
+                }
+            }
+        }
+        impl Drop for $name { fn drop(&mut self) { let id = self.id; reg::dropped(id); } }
+        impl Clone for $name {
+            fn clone(&self) -> Self { let (oid, p) = (self.id, self.p); let id = reg::cloned(oid); Self { id, p, tail: Self::tail_of(id, p) } }
+        }
+    };
+}
+comp_odd!(Qb, 1);
+comp_odd!(Qd, 3);
+comp_odd!(Qh, 4104);
 
 /// Read a component through the `Comp` trait, running its integrity check.
 pub fn rd<C: Comp>(c: &C) -> Val {
